@@ -15,7 +15,8 @@ PROPS_MODULE = 'Props.C05'
 THEOREMS = ['bin_roundtrip', 'bin_load_total', 'bin_resave', 'adf_roundtrip', 'adf_resave', 'adf_palette_roundtrip',
             'xb_roundtrip_one_font', 'xb_roundtrip_two_fonts', 'xb_resave', 'idf_roundtrip', 'idf_resave',
             'tnd_roundtrip', 'tnd_resave', 'palette63_roundtrip', 'font_block_roundtrip', 'layer_get_after_set',
-            'known_1_witness', 'known_1_always_refused', 'known_2_witness']
+            'known_1_witness', 'known_1_always_refused', 'known_2_witness',
+            'tnd_fixed_loader_agrees', 'xb_fixed_loader_accepts', 'xb_fixed_loader_accepted']
 SWEEP_LEMMAS = ['C05BinProofs.from_u8_vis_sweep (256 bytes x 3 modes: a decoded attribute is visible and on font page 0)',
                 'C05AdfProofs.six_bit_sweep / expand6_idem_sweep (64 six-bit values, 256 byte values of the u8 expression r << 2 | r >> 4)',
                 'C05AdfProofs.ega_offsets_sweep (the generated EGA_COLOR_OFFSETS: 16 distinct indices below 64; EGA_PALETTE has 64 entries)',
